@@ -106,6 +106,7 @@ class Cursor(object):
                     self.properties.setdefault(f.name, []).append(f)
         self._param_stream_cache = {}
         self.used_exceptions = set()
+        self._attr_callables = {}
 
     # -- classification ------------------------------------------------------------------
     def classify(self, node, f, local):
@@ -211,8 +212,11 @@ class Cursor(object):
                         seen.add(id(m))
                         out.append(m)
                 if not out:
-                    # attribute holding a callable (self.attribute(...)): unknown callee
-                    pass
+                    # attribute holding a callable (self.attribute(...)): the classes the constructors pass in
+                    for ci in self.attr_callable_classes(f.cls, name):
+                        for g in self.ctor_funcs(ci):
+                            if g not in out:
+                                out.append(g)
             elif isinstance(base, ast.Call) and isinstance(base.func, ast.Name) and base.func.id == 'super' and f.cls:
                 coop = True
                 for b in f.cls.mro()[1:]:
@@ -245,6 +249,51 @@ class Cursor(object):
                            not g.mod.startswith(EXCLUDED_MODS) and g.cls is not None]
         out = [g for g in out if not g.mod.startswith(EXCLUDED_MODS)]
         return out, coop
+
+    def attr_callable_classes(self, cls, attr):
+        """Classes stored in instance attribute `attr` by the constructors of `cls` and of its subclasses
+        (self.attr = <ctor parameter>; subclasses pass a class name for that parameter to super().__init__)."""
+        key = (cls.name, attr)
+        if key in self._attr_callables:
+            return self._attr_callables[key]
+        out = []
+        self._attr_callables[key] = out
+        owner = None
+        pidx = None
+        for c in cls.mro():
+            init = c.methods.get('__init__')
+            if init is None:
+                continue
+            params = [a.arg for a in init.node.args.args][1:]
+            for n in walk_no_nested(init.node):
+                if isinstance(n, ast.Assign) and isinstance(n.value, ast.Name) and n.value.id in params:
+                    for t in n.targets:
+                        if isinstance(t, ast.Attribute) and isinstance(t.value, ast.Name) and t.value.id == 'self' and t.attr == attr:
+                            owner, pidx, pname = c, params.index(n.value.id), n.value.id
+            if owner is not None:
+                break
+        if owner is None:
+            return out
+        for sub in [owner] + owner.all_subclasses():
+            init = sub.methods.get('__init__')
+            if init is None:
+                continue
+            for n in walk_no_nested(init.node):
+                if isinstance(n, ast.Call) and isinstance(n.func, ast.Attribute) and n.func.attr == '__init__':
+                    arg = None
+                    args = list(n.args)
+                    if isinstance(n.func.value, ast.Name) and n.func.value.id in self.model.classes and args:
+                        args = args[1:]       # Base.__init__(self, ...)
+                    if pidx < len(args):
+                        arg = args[pidx]
+                    for k in n.keywords:
+                        if k.arg == pname:
+                            arg = k.value
+                    if isinstance(arg, ast.Name):
+                        ci = self.model.resolve_class(sub.mod, arg.id)
+                        if ci is not None and ci not in out:
+                            out.append(ci)
+        return out
 
     def ctor_funcs(self, ci):
         out = []
